@@ -11,7 +11,6 @@ import (
 	"strings"
 	"time"
 
-
 	"github.com/atlassian/gostatsd"
 	"github.com/atlassian/gostatsd/internal/verif/lib/fx"
 	"github.com/atlassian/gostatsd/internal/verif/vrt"
@@ -36,10 +35,11 @@ type cfg struct {
 	Emit        bool
 	Outcomes    int  // number of provider outcome alternatives enumerated per call (1 = always found)
 	SlowRefresh bool // refresh period 20s with TTL 5s: entries are long expired when the refresh happens
+	Held        bool // provider calls made after the initial lookups do not return until the harness lets them: a call can span refresh ticks
 }
 
 func (c cfg) String() string {
-	return fmt.Sprintf("%s-b%d-idle%v-t%d-p%v-e%v-o%d-slow%v", strings.Join(c.Submit, ""), c.MaxBatch, c.Idle, c.Ticks, c.Peek, c.Emit, c.Outcomes, c.SlowRefresh)
+	return fmt.Sprintf("%s-b%d-idle%v-t%d-p%v-e%v-o%d-slow%v", strings.Join(c.Submit, ""), c.MaxBatch, c.Idle, c.Ticks, c.Peek, c.Emit, c.Outcomes, c.SlowRefresh) + map[bool]string{true: "-held"}[c.Held]
 }
 
 type call struct {
@@ -60,6 +60,7 @@ type run struct {
 	viol         string
 	violKey      string
 	callObj      *int
+	gate         chan struct{}
 }
 
 func (r *run) fail(k, m string) {
@@ -81,6 +82,9 @@ func (p provider) Instance(ctx context.Context, ips ...gostatsd.Source) (map[gos
 	o := 0
 	if p.r.c.Outcomes > 1 {
 		o = vsched.Choose(p.r.c.Outcomes, "provider-outcome")
+	}
+	if p.r.c.Held && len(p.r.calls) >= len(uniq(p.r.c.Submit)) {
+		vsched.Recv(p.r.gate) // a slow provider call: it returns when the harness says so
 	}
 	p.r.calls = append(p.r.calls, call{append([]gostatsd.Source{}, ips...), o, vtime.Now()})
 	mk := func(s gostatsd.Source) *gostatsd.Instance {
@@ -146,7 +150,7 @@ func body(c cfg, r *run) func(*vsched.Exec) {
 		if c.SlowRefresh {
 			refresh, ttl, negTTL = 20*time.Second, 5*time.Second, 5*time.Second
 		}
-		*r = run{c: c, answers: map[gostatsd.Source]int{}, lastGood: map[gostatsd.Source]string{}, seenPositive: map[gostatsd.Source]bool{}, everGood: map[gostatsd.Source]map[string]bool{}, callObj: new(int)}
+		*r = run{c: c, answers: map[gostatsd.Source]int{}, lastGood: map[gostatsd.Source]string{}, seenPositive: map[gostatsd.Source]bool{}, everGood: map[gostatsd.Source]map[string]bool{}, callObj: new(int), gate: make(chan struct{}, 64)}
 		ctx, mock := fx.NewClock(context.Background())
 		// built as the gostatsd command builds it (this harness is compiled into cmd/gostatsd): cache periods and the
 		// request limiter come from the command line; the limiter is finite with a burst smaller than a batch
@@ -210,7 +214,19 @@ func body(c cfg, r *run) func(*vsched.Exec) {
 			vtime.Advance(mock, 10*time.Millisecond)
 			vsched.Quiesce("refresh-lookups")
 			r.checkTick(before, tickAt, ncalls)
-			r.checkQuiescent(fmt.Sprintf("after tick %d", t), mock.Now(), true)
+			if !c.Held {
+				r.checkQuiescent(fmt.Sprintf("after tick %d", t), mock.Now(), true)
+			}
+		}
+		if c.Held {
+			// let the slow calls return, one after the other, and everything settle
+			for i := 0; i < 32; i++ {
+				r.gate <- struct{}{}
+			}
+			vsched.Quiesce("released")
+			vtime.Advance(mock, 10*time.Millisecond)
+			vsched.Quiesce("released-batch-window")
+			r.checkQuiescent("after the held calls returned", mock.Now(), true)
 		}
 		if c.Emit {
 			vsched.GoNamed("emitter-final", func() { vsched.Send(st.notify, time.Second) })
@@ -356,7 +372,7 @@ func (r *run) checkTick(before map[gostatsd.Source]cloudprovider.VerifEntry, tic
 		if !still && !idle && !r.c.Peek {
 			r.fail("evicted-while-fresh", fmt.Sprintf("entry %s (last access %v before the tick) was evicted", s, time.Duration(tickAt.UnixNano()-e.LastAccess)))
 		}
-		if still && !idle && tickAt.UnixNano() > e.Expires && !requeried[s] {
+		if still && !idle && tickAt.UnixNano() > e.Expires && !requeried[s] && !r.c.Held {
 			r.fail("expired-not-requeried", fmt.Sprintf("entry %s expired %v before the tick but was not queried again", s, time.Duration(tickAt.UnixNano()-e.Expires)))
 		}
 	}
@@ -397,15 +413,18 @@ func check(c cfg, r *run, outcomes map[string]struct{}) func(*vsched.Exec, vsche
 func configs() []cfg {
 	never := 1000 * time.Hour
 	cs := []cfg{
-		{[]string{"a", "b"}, 2, never, 0, true, false, 4, false},
-		{[]string{"a"}, 1, never, 3, true, false, 2, true},
-		{[]string{"a", "a"}, 2, never, 1, false, true, 2, false},
-		{[]string{"a"}, 1, never, 2, true, false, 3, false},
-		{[]string{"a", "b"}, 1, 12 * time.Second, 2, false, true, 2, false},
-		{[]string{"a"}, 2, 12 * time.Second, 2, true, true, 2, false},
+		{[]string{"a", "b"}, 2, never, 0, true, false, 4, false, false},
+		{[]string{"a"}, 1, never, 3, true, false, 2, true, false},
+		{[]string{"a", "a"}, 2, never, 1, false, true, 2, false, false},
+		{[]string{"a"}, 1, never, 2, true, false, 3, false, false},
+		{[]string{"a", "b"}, 1, 12 * time.Second, 2, false, true, 2, false, false},
+		{[]string{"a"}, 2, 12 * time.Second, 2, true, true, 2, false, false},
+		// three sources, batch 1, refresh 10s / TTL 15s / idle 25s: at the 20s tick all three are expired and queued
+		// behind one slow provider call; at the 30s tick they are idle and must be evicted although the backlog is still there
+		{Submit: []string{"a", "b", "c"}, MaxBatch: 1, Idle: 25 * time.Second, Ticks: 3, Outcomes: 1, Held: true},
 	}
 	if vrt.Thorough() {
-		cs = append(cs, cfg{[]string{"a", "b", "a"}, 2, never, 1, true, true, 4, false}, cfg{[]string{"a", "b"}, 2, 12 * time.Second, 2, true, true, 4, false}, cfg{[]string{"a", "b", "c"}, 2, never, 2, false, false, 3, false}, cfg{[]string{"a", "b"}, 2, never, 3, true, true, 3, true})
+		cs = append(cs, cfg{[]string{"a", "b", "a"}, 2, never, 1, true, true, 4, false, false}, cfg{[]string{"a", "b"}, 2, 12 * time.Second, 2, true, true, 4, false, false}, cfg{[]string{"a", "b", "c"}, 2, never, 2, false, false, 3, false, false}, cfg{[]string{"a", "b"}, 2, never, 3, true, true, 3, true, false})
 	}
 	return cs
 }
